@@ -23,7 +23,7 @@ CHECK = {
             'it decodes (only known members, well-typed) to a Spec satisfying the declarative predicate WF transcribed from the property text '
             '(accepts_iff_WF, validate_iff_WF); it never panics (accepts_total, validate_total); every single defect of 22 kinds, at the spec level, at '
             'any device of any number of devices and at any element of any list, makes the Spec not WF and hence rejected with an error '
-            '(single_defect_rejects and one lemma per kind, unknown_key_rejects for any object of the document tree); the oracle wf_b decides WF '
+            '(single_defect_rejects over the inductive Defect with one position-quantified constructor per kind, unknown_key_rejects for any object of the document tree); the oracle wf_b decides WF '
             '(wf_b_iff). The model is tied to the code on every run: well-formed Specs over all pairs of the 32 optional fields, boundary values, one '
             'defect of each kind at every position, and a malformed-document stream, each as JSON and YAML through cdi.ReadSpec, '
             'Cache.Refresh+GetErrors and (typed) Cache.WriteSpec, plus cdi.ParseSpec\'s decoded value against the model decoder.',
